@@ -16,6 +16,12 @@ CLAIMED = {
    text="All values <=N nodes over plain/counted/typed containers with up to 15 element types, every scalar marker and length marker, typed containers followed by siblings; events compared with refubj. Exhaustive inside the bound.",
    note="refubj is trusted as the draft-12 reference; no-ops inside counted/typed containers and objects are excluded (draft unclear)", ref="DESIGN.md §5 C06"),
 }
+CLAIMED["C02"] = dict(level="model_checking", technique="stateless model checking of the chunk schedule: every subset of cut positions (deviation-bounded beyond a length bound) x entry points, on the real parsers, against the whole-buffer parse",
+   text="Each document of the three wire languages (and its single-edit invalid neighbours) is fed to the real parser under every chunk schedule of the bounded space (all 2^(n-1) cut sets for short documents, <=k cuts beyond, single bytes, strides, empty writes) through Write sequences (fresh and reused parser) and ParseReader (EOF separately / with the last chunk); events and verdict must equal the whole-buffer parse. The schedule space is enumerated exhaustively; states = (document, cut-prefix) decision nodes.",
+   note="documents longer than the full-cut bound only get bounded cut sets; the whole-buffer parse is the reference (its own correctness is C04-C06)", ref="DESIGN.md §5 C02")
+CLAIMED["C07"] = dict(level="exploration", technique="bounded exhaustive enumeration of event streams on the real encoders, output judged by independent reference decoders",
+   text="The C01 stream language is written by the real encoders and read back by refjson/refcbor/refubj: exactly one complete value equal to the stream's value; JSON byte-level rules (UTF-8, control characters, HTML escaping, radix point, non-finite floats) checked on every output.",
+   note="reference decoders are the trusted format definitions", ref="DESIGN.md §5 C07")
 REASONS = {}
 
 def main():
